@@ -26,6 +26,7 @@ def run(chk):
     cs = CaseSet("c07")
     plan = []
     for wi in range(40 if quick else 500):
+        rng.seed("%d/c07-1/%d" % (chk.seed, wi))      # every world has its own stream: families do not disturb each other
         sph = rng.random() < 0.4
         wj, sph, f = line_world(rng, spherical=sph, straight=rng.random() < 0.3, allow_mass_conserving=False, extra_area=0.0)
         if sph and rng.random() < 0.4:
@@ -197,6 +198,7 @@ def run(chk):
     cs_area = CaseSet("c07area")
     nsurf = 0
     for wi in range(25 if quick else 300):
+        rng.seed("%d/c07-2/%d" % (chk.seed, wi))      # every world has its own stream: families do not disturb each other
         wj, sph2 = area_world(rng, nfeat=rng.randint(1, 3), plumes=0.0, cross=False)
         cs_area.add_world(wj)
         nsurf += 1
